@@ -224,6 +224,7 @@ type azFetch struct {
 	Wrapped   string `json:"wrapped"`
 	Rewrapped string `json:"rewrapped"`
 	WrapperOn bool   `json:"registration_wrapper_configured"`
+	FlowInfo  string `json:"unsealed_flow_info_in_bundle,omitempty"` // the bundle's own (unsealed) wrapping_registration_flow_info field set by the requester: empty | matching | other
 }
 
 // fetch assembles one well-signed request, predicts and judges
@@ -305,6 +306,18 @@ func (w *azWorld) fetch(step int) {
 		info.WrappedRegistrationInfo = world.SealRegInfo(world.NewAead("foreign"), &types.WrappingRegistrationFlowInfo{CertificatePublicKeyPkix: keys.Pkix, Nonce: nonce})
 	case "garbage":
 		info.WrappedRegistrationInfo = world.RandBytes(40)
+	}
+	// --- the bundle's unsealed flow-info field (normally filled in by the server after unsealing) ---------
+	switch w.rng.Intn(6) {
+	case 0:
+		f.FlowInfo = "empty"
+		info.WrappingRegistrationFlowInfo = &types.WrappingRegistrationFlowInfo{}
+	case 1:
+		f.FlowInfo = "matching"
+		info.WrappingRegistrationFlowInfo = &types.WrappingRegistrationFlowInfo{CertificatePublicKeyPkix: keys.Pkix, Nonce: nonce}
+	case 2:
+		f.FlowInfo = "other"
+		info.WrappingRegistrationFlowInfo = &types.WrappingRegistrationFlowInfo{CertificatePublicKeyPkix: world.NewKeys().Pkix, Nonce: world.RandBytes(32)}
 	}
 	req := world.Sign(info, keys.Priv)
 	// --- re-wrapped registration info ---------------------------------------------
@@ -394,7 +407,7 @@ func (w *azWorld) fetch(step int) {
 	w.log("fetch %s -> creds=%v err=%v", engine.J(f), got, err != nil)
 	switch {
 	case got && !allowed:
-		key := fmt.Sprintf("unauthorized-credentials:cert=%s,enc=%s,nonce=%s,wrapped=%s,rewrapped=%s,wrapper-configured=%v", f.Cert, f.Enc, f.Nonce, f.Wrapped, f.Rewrapped, f.WrapperOn)
+		key := fmt.Sprintf("unauthorized-credentials:cert=%s,enc=%s,nonce=%s,wrapped=%s,rewrapped=%s,wrapper-configured=%v,unsealed-flow-info=%s", f.Cert, f.Enc, f.Nonce, f.Wrapped, f.Rewrapped, f.WrapperOn, orDefault(f.FlowInfo, "none"))
 		r.Violation(key, "credentials were issued for a request that none of (a) matching existing record, (b) unused unexpired token, (c) matching sealed registration info authorizes", w.witness(f))
 	case !allowed && len(newIDs) > 0:
 		r.Violation("refused-request-left-a-record:nonce="+f.Nonce+",wrapped="+f.Wrapped+",rewrapped="+f.Rewrapped, fmt.Sprintf("a request that is not authorized left new node record(s) %v in storage", newIDs), w.witness(f))
@@ -426,6 +439,9 @@ func (w *azWorld) fetch(step int) {
 		}
 		if f.Rewrapped != "none" {
 			r.Count("refused:rewrapped="+f.Rewrapped, 1)
+		}
+		if f.FlowInfo != "" {
+			r.Count("refused:unsealed-flow-info="+f.FlowInfo, 1)
 		}
 	}
 }
@@ -501,6 +517,9 @@ func runAuthz(c *engine.Ctx) engine.Result {
 	}
 	for _, k := range []string{"mismatch-nonce", "mismatch-key", "by-removed", "wrong-keyid", "garbage"} {
 		r.Require("refused:rewrapped="+k, 3)
+	}
+	for _, k := range []string{"empty", "matching", "other"} {
+		r.Require("refused:unsealed-flow-info="+k, 20)
 	}
 	return res
 }
